@@ -11,7 +11,7 @@ struct sim_probe {
         uint64_t args[6];       // 8
         uint64_t nstack;        // 56
         uint64_t stack_args[32]; // 64
-        uint64_t flags;         // 320: bit0 scrub stack+vector regs before, bit1 dump stack after
+        uint64_t flags;         // 320: bit0 scrub stack+vector regs before, bit1 dump stack after, bit2 single-step the callee
         uint64_t canary[6];     // 328: rbx rbp r12 r13 r14 r15
 };
 
@@ -29,6 +29,7 @@ struct tramp_out {
 extern struct tramp_out g_tramp_out;
 extern uint64_t g_tramp_saved_rsp;
 uint64_t sim_call(struct sim_probe *p);
+extern char sim_call_after[]; // the instruction after the call
 }
 
 static_assert(offsetof(sim_probe, flags) == 320, "probe layout");
